@@ -18,13 +18,15 @@ structure Frm where
   name : String
   tag : Nat
   reply : Bool
+  size : Nat := 0          -- ContentHeader: announced body size
+  data : List UInt8 := []  -- ContentBody: payload; method frames: an opaque rendering of their fields
 deriving DecidableEq, Repr
 
 structure T where
   request : List (String × Nat) := []       -- `_request`: frame name ↦ uuid
   response : List (Nat × List Frm) := []    -- `_response`: uuid ↦ frames received so far
   nextUid : Nat := 0                        -- stands for uuid4(): fresh on every call
-deriving Repr
+deriving DecidableEq, Repr
 
 /-- `Rpc.on_frame`: `(true, _)` = consumed as a reply; `(false, _)` = falls through -/
 def onFrame (t : T) (f : Frm) : Bool × T :=
